@@ -465,6 +465,13 @@ def handleNorm (zs : Zones) (fn : String) (a : Array String) : Option String := 
       let o ← getObs a 1; let d ← getOptI a[6]!; let dir ← getDir a[7]!
       let tz ← getTzArg zs a[8]!; let now ← getI a[9]!
       pure (exc pair (periodPublic (resolveIn zs) now fn o d dir tz))
+  | "pub_daynight" =>
+      -- pub_daynight <night B> <obs…5> <datespec> <tz> <now>
+      let isNight ← getB a[0]!; let o ← getObs a 1; let ds ← getDateSpec zs a[6]!
+      let tz ← getTzArg zs a[7]!; let now ← getI a[8]!
+      pure (exc (fun (r : (Int × TZ) × (Int × TZ)) =>
+        s!"{tokI r.1.1} {tokI (r.1.2.utc r.1.1)} {tokI r.2.1} {tokI (r.2.2.utc r.2.1)}")
+        (dayNightPublic (resolveIn zs) now isNight o ds tz))
   | "pub_sun" =>
       -- pub_sun <obs…5> <date|N> <dep> <tz> <now>
       let o ← getObs a 0; let d ← getOptI a[5]!
